@@ -16,12 +16,16 @@ res = {}
 subprocess.check_call(["git", "-C", "/repo", "apply", os.path.join(d, "patch.diff")])
 try:
     for p in props:
+        evp = os.path.join(ROOT, "evidence", f"{p}.json")
+        saved = open(evp).read() if os.path.exists(evp) else None
         t0 = time.time()
         r = subprocess.run([os.path.join(ROOT, "check"), p, "--tier", tier], cwd=ROOT, capture_output=True, text=True)
         viol = [l for l in r.stdout.split("\n") if l.startswith("VIOLATION")]
         res[p] = {"rc": r.returncode, "violation_lines": viol, "wall_s": round(time.time() - t0, 1),
                   "stderr_tail": r.stderr[-600:]}
         print(p, "rc=", r.returncode, viol[:2])
+        if saved is not None:      # evidence files describe the unchanged tree only
+            open(evp, "w").write(saved)
         for v in viol[:1]:
             path = v.split("replay=")[1].split(" ")[0]
             if os.path.exists(path):
